@@ -95,6 +95,7 @@ STRENGTHENED = {
     "C20_r4_m2": "Privs.tla capability dimension (uid-0 refused a privilege call), deviation SwallowEperm",
     # round 5
     "C01_r5_m1": "reject kinds (NUL / CR in a value, blank before the colon) in fields whose name has an underscore",
+    "C02_r5_m1": "(first caught by chance, then missed by a later run) requests with a body that the application reads before / in the middle of / after its output or not at all, with and without Expect: 100-continue",
     "C03_r5_m2": "line-level injection aimed at the master's once-a-second passes: a worker dies at every source line of murder_workers / manage_workers",
     "C04_r5_m1": "real shutdowns with --reuse-port",
     "C04_r5_m2": "stop signals during a slow application import (run_boot_stop)",
